@@ -26,7 +26,7 @@ fn register(text: &str) -> String {
         let text = match res {
             Ok(ledger) => {
                 let mut total = report::Amount::default();
-                let rows: Vec<String> = ledger
+                let mut rows: Vec<String> = ledger
                     .postings(&ctx, &query::PostingQuery { account: None })
                     .iter()
                     .map(|p| {
@@ -34,6 +34,21 @@ fn register(text: &str) -> String {
                         format!("({} {} {})", enc(p.account.as_str()), proc::amount_sx(&p.amount), proc::amount_sx(&total))
                     })
                     .collect();
+                // `okane register FILE ACCOUNT` for every (canonical) account that was posted to: the query names the
+                // canonical account also when every posting wrote an alias
+                let mut accts: Vec<String> = Vec::new();
+                for p in ledger.postings(&ctx, &query::PostingQuery { account: None }) {
+                    let a = p.account.as_str().to_string();
+                    if !accts.contains(&a) {
+                        accts.push(a);
+                    }
+                }
+                for a in &accts {
+                    let ps = ledger.postings(&ctx, &query::PostingQuery { account: Some(a.clone()) });
+                    let items: Vec<String> =
+                        ps.iter().map(|p| format!("({} {})", enc(p.account.as_str()), proc::amount_sx(&p.amount))).collect();
+                    rows.push(format!("(filtered {} {})", enc(a), items.join(" ")));
+                }
                 format!("({})", rows.join(" "))
             }
             Err(_) => "-".to_string(),
